@@ -9,6 +9,7 @@ Definition zrange (a b step : Z) : list Z :=
   else map (fun i => (a + Z.of_nat i * step)%Z) (seq 0 (Z.to_nat ((b - a + step - 1) / step))).
 
 Definition zlen {A} (l : list A) : Z := Z.of_nat (length l).
+Definition nlen {A} (l : list A) : N := N.of_nat (length l).
 Definition is_nonempty {A} (l : list A) : bool := match l with [] => false | _ => true end.
 
 (* try: d[k][0] += inc   except KeyError: d[k] = [i0, i1]      (d : key -> [count, delta]) *)
